@@ -493,7 +493,114 @@ func lonelyRound(rng *rand.Rand, round int, emit func(Ev)) bool {
 	return true
 }
 
+// idleRound: the consumer side of "no lost wake-ups".  K consumers are parked in Read on an empty queue; bursts of
+// k <= (idle consumers) requests are enqueued back to back (one producer, or several released together) while NO export
+// call is allowed to return.  Every accepted request must be handed to one of the idle consumers: completions may come
+// arbitrarily late, so a request that sits in the queue next to a parked consumer is never handed over in that
+// execution (WorkConserving in SizedQueue.tla; a wake-up issued only on the empty -> non-empty transition loses it).
+func idleRound(rng *rand.Rand, round int, emit func(Ev)) bool {
+	K := 2 + rng.Intn(5)
+	cfg := Cfg{Sizer: []string{"requests", "items", "bytes"}[rng.Intn(3)], Cap: 64, Block: rng.Intn(2) == 0, WFR: false,
+		Persistent: rng.Intn(4) == 0, Consumers: K}
+	if cfg.Persistent {
+		cfg.Sizer = "requests"
+	}
+	var mu sync.Mutex
+	log := func(e Ev) { mu.Lock(); emit(e); mu.Unlock() }
+	release := make(chan struct{})
+	var started atomic.Int64
+	w := 0
+	next := func(_ context.Context, r request.Request) error {
+		n := r.(*vreq).Name
+		mu.Lock()
+		w++
+		emit(Ev{Ev: "push_start", Req: n, W: w})
+		mu.Unlock()
+		started.Add(1)
+		<-release
+		return nil
+	}
+	e, err := newEnv(cfg, next)
+	if err != nil {
+		return true
+	}
+	c := cfg
+	log(Ev{Ev: "reset", Round: round, Cfg: &c, Heavy: true})
+	if err := e.qb.Start(context.Background(), e.host); err != nil {
+		return true
+	}
+	time.Sleep(time.Duration(200+rng.Intn(2000)) * time.Microsecond) // let the consumers park
+	idle, seq, ok := K, 0, true
+	var accepted int64
+	for wave := 0; ok && idle > 0 && wave < 3; wave++ {
+		k := 2 + rng.Intn(idle)
+		if k > idle {
+			k = idle
+		}
+		names := make([]string, k)
+		for i := range names {
+			seq++
+			names[i] = fmt.Sprintf("i%d", seq)
+		}
+		offer := func(n string) {
+			err := e.qb.Send(context.Background(), mkReq(n, 1, cfg.Sizer))
+			log(Ev{Ev: "offer_end", P: 1, Req: n, Res: classify(err), Size: 1})
+		}
+		if rng.Intn(2) == 0 { // one producer, back to back
+			for _, n := range names {
+				offer(n)
+			}
+		} else { // several producers released together
+			var wg sync.WaitGroup
+			var ready atomic.Int64
+			for _, n := range names {
+				wg.Add(1)
+				go func(n string) {
+					defer wg.Done()
+					ready.Add(1)
+					for ready.Load() < int64(len(names)) {
+					}
+					offer(n)
+				}(n)
+			}
+			wg.Wait()
+		}
+		accepted += int64(k)
+		idle -= k
+		// all of them must reach the export function although none of the earlier calls returns
+		for t := 0; started.Load() < accepted; t++ {
+			if t > 30000 { // 30 s
+				size, _ := e.gauge("otelcol_exporter_queue_size")
+				log(Ev{Ev: "hang", Blocked: append([]string{fmt.Sprintf("idle-consumers: %d requests accepted, %d handed over, %d of %d consumers still idle, reported size %d, no completion pending release",
+					accepted, started.Load(), idle+int(accepted-started.Load()), K, size)}, blockedSites()...)})
+				ok = false
+				break
+			}
+			time.Sleep(time.Millisecond)
+		}
+	}
+	close(release)
+	if !ok {
+		return false
+	}
+	log(Ev{Ev: "shutdown_start"})
+	done := make(chan struct{})
+	go func() { _ = e.qb.Shutdown(context.Background()); close(done) }()
+	select {
+	case <-done:
+	case <-time.After(30 * time.Second):
+		log(Ev{Ev: "hang", Blocked: blockedSites()})
+		return false
+	}
+	log(Ev{Ev: "shutdown_end"})
+	_ = e.tel.Shutdown(context.Background())
+	return true
+}
+
 func stressRound(rng *rand.Rand, round int, emit func(Ev)) bool {
+	if round%16 == 12 || round%16 == 7 {
+		return idleRound(rng, round, emit)
+	}
 	if round%8 == 2 || round%8 == 6 {
 		return lonelyRound(rng, round, emit)
 	}
